@@ -23,10 +23,13 @@ type callTuple struct {
 	errk string
 }
 
-func loopUnder(b []byte, sched iosim.Schedule, nameArgs bool, cov *Cov, keep bool) (*LoopRes, []callTuple, *iosim.SimReader) {
+func loopUnder(b []byte, sched iosim.Schedule, nameArgs bool, cov *Cov, keep bool, bufio ...int) (*LoopRes, []callTuple, *iosim.SimReader) {
 	clk := &core.Clock{}
 	sr := iosim.NewSimReader(b, sched, clk)
 	sr.KeepRecs = keep
+	if len(bufio) > 0 && bufio[0] > 0 {
+		sr.WrapBufio(bufio[0])
+	}
 	w := iosim.NewSimWriter(clk)
 	var tuples []callTuple
 	opts := (&Case{NameArgs: nameArgs}).Opts()
@@ -53,7 +56,7 @@ func CheckC09(c *Case, cov *Cov) []*Violation {
 	b := c.Stream().Bytes
 	sched := c.Sched.FitTo(len(b))
 	base, bt, _ := loopUnder(b, iosim.OneShot(len(b)), c.NameArgs, nil, false)
-	got, gt, _ := loopUnder(b, sched, c.NameArgs, cov, false)
+	got, gt, _ := loopUnder(b, sched, c.NameArgs, cov, false, c.Bufio)
 	return compareLoops("C09", c, b, base, bt, got, gt)
 }
 
@@ -250,14 +253,31 @@ func runC09Stream(r *core.Rng, doc *gen.Doc, s *gen.Stream, run, seed uint64, ti
 	var vs []*Violation
 	seen := map[string]bool{}
 	hasDump := len(s.Dumps) > 0 || doc == nil
+	// the same schedules, a sample of them once more behind a bufio.Reader of
+	// several sizes (below, at and above the scanner's own buffer size)
+	type variant struct {
+		sc    iosim.Schedule
+		bufio int
+	}
+	var vars []variant
 	for _, sc := range scheds {
-		c := &Case{Prop: "C09", Run: run, Seed: seed, Mode: "loop", Doc: doc, Sched: sc, NameArgs: nameArgs}
+		vars = append(vars, variant{sc, 0})
+	}
+	for i, n := 0, 6; i < n && len(scheds) > 0; i++ {
+		vars = append(vars, variant{scheds[r.Intn(len(scheds))], []int{16, 4096, 16384, 16385, 32768, 65536}[i]})
+	}
+	for _, vr := range vars {
+		sc := vr.sc
+		c := &Case{Prop: "C09", Run: run, Seed: seed, Mode: "loop", Doc: doc, Sched: sc, NameArgs: nameArgs, Bufio: vr.bufio}
 		if doc == nil {
 			c.Raw = b
 		}
-		got, gt, sr := loopUnder(b, sc, nameArgs, cov, false)
+		got, gt, sr := loopUnder(b, sc, nameArgs, cov, false, vr.bufio)
 		_ = sr
-		cov.Note(ih, sc, hasDump, "")
+		if vr.bufio > 0 {
+			cov.Probe("behind-bufio.Reader")
+		}
+		cov.Note(ih, sc, hasDump, map[bool]string{true: fmt.Sprint("bufio", vr.bufio)}[vr.bufio > 0])
 		for _, v := range compareLoops("C09", c, b, base, bt, got, gt) {
 			if !seen[v.Clause] {
 				seen[v.Clause] = true
